@@ -564,7 +564,7 @@ Record INV (s : state) : Prop := mkINV
     iv_gs : forall a m c', In (a, m, c') (subs s) -> exists sd, bound_to s0 c' a sd;
     iv_conns : forall c' cs', lookup_conn c' (conns s0) = Some cs' ->
                (exists sd, c_bound cs' = Some (B, sd)) -> lookup_conn c' (conns s) = Some cs';
-    iv_log : forall c' f b, In (LFrame c' f b) (log s) -> exists sd, bound_to s0 c' A sd }.
+    iv_log : forall c' f b tx, In (LFrame c' f b tx) (log s) -> exists sd, bound_to s0 c' A sd }.
 
 Lemma bd_c : exists sd, bound_to s0 c A sd.
 Proof. exists side0, cs0. split; assumption. Qed.
@@ -592,17 +592,17 @@ Lemma INV_commit_chan s :
   INV s -> INV (mkState (chan_w s) (chan_w s) (usage_w s) (usage_c s) (subs s) (conns s)
                         (now s) (boot s) (timer_start s) (next_due s)
                         (LCommitChan (chan_w s) :: log s)).
-Proof. inv_tac. intros c' f b [K|K]; [discriminate|eauto]. Qed.
+Proof. inv_tac. intros c' f b tx [K|K]; [discriminate|eauto]. Qed.
 
 Lemma INV_commit_usage s :
   INV s -> INV (mkState (chan_w s) (chan_c s) (usage_w s) (usage_w s) (subs s) (conns s)
                         (now s) (boot s) (timer_start s) (next_due s)
                         (LCommitUsage (usage_w s) :: log s)).
-Proof. inv_tac. intros c' f b [K|K]; [discriminate|eauto]. Qed.
+Proof. inv_tac. intros c' f b tx [K|K]; [discriminate|eauto]. Qed.
 
 Lemma INV_send s c' f :
-  INV s -> (exists sd, bound_to s0 c' A sd) -> INV (set_log s (LFrame c' f (is_clean s) :: log s)).
-Proof. intros HI Hbd. revert HI. inv_tac. intros c1 f1 b1 [K|K]; [inversion K as [[Kc Kf Kb]]; rewrite <- Kc; exact Hbd|eauto]. Qed.
+  INV s -> (exists sd, bound_to s0 c' A sd) -> INV (set_log s (LFrame c' f (is_clean s) (now s) :: log s)).
+Proof. intros HI Hbd. revert HI. inv_tac. intros c1 f1 b1 t1 [K|K]; [inversion K as [[Kc Kf Kb Kt]]; rewrite <- Kc; exact Hbd|eauto]. Qed.
 
 Lemma INV_set_conn s cs : INV s -> INV (set_conns s (update_conn c cs (conns s))).
 Proof.
@@ -989,15 +989,15 @@ Qed.
 
 End Step.
 
-Lemma frames_of_In c' f l : In (c', f) (frames_of l) -> exists b, In (LFrame c' f b) l.
+Lemma frames_of_In c' f l : In (c', f) (frames_of l) -> exists b tx, In (LFrame c' f b tx) l.
 Proof.
   induction l as [|e l IH]; cbn [frames_of]; [intros []|].
-  destruct e as [d|u|c1 f1 b1].
-  - intros H. destruct (IH H) as [b Hb]. exists b. right. exact Hb.
-  - intros H. destruct (IH H) as [b Hb]. exists b. right. exact Hb.
+  destruct e as [d|u|c1 f1 b1 t1].
+  - intros H. destruct (IH H) as [b [tx Hb]]. exists b, tx. right. exact Hb.
+  - intros H. destruct (IH H) as [b [tx Hb]]. exists b, tx. right. exact Hb.
   - intros [H|H].
-    + inversion H; subst. exists b1. left. reflexivity.
-    + destruct (IH H) as [b Hb]. exists b. right. exact Hb.
+    + inversion H; subst. exists b1, t1. left. reflexivity.
+    + destruct (IH H) as [b [tx Hb]]. exists b, tx. right. exact Hb.
 Qed.
 
 (** nothing stored changes *)
@@ -1059,7 +1059,7 @@ Proof.
     - intros a m c' Hin. destruct (si_subs s HS _ Hin) as [_ (cs1 & sd & K1 & K2 & _)].
       exists sd, cs1. split; assumption.
     - intros c' cs' K _. exact K.
-    - rewrite Hlog. intros c' f b []. }
+    - rewrite Hlog. intros c' f b tx []. }
   assert (HP : Pre A c s).
   { exists cs, side. split; [exact Hlk|]. split; [exact Hb|]. intros m Hm.
     pose proof (si_conns s HS c cs Hlk) as Hok. unfold conn_ok in Hok. rewrite Hm in Hok.
@@ -1079,8 +1079,8 @@ Proof.
     cbn [set_log chan_w chan_c usage_w usage_c subs conns o_log].
     split; [exact H2|]. split; [rewrite <- Hcc; exact H3|]. split; [exact H4|].
     split; [rewrite <- Hcu; exact H5|]. split; [exact H6|]. split; [exact H8|].
-    intros c' f Hin. apply frames_of_In in Hin. destruct Hin as [b Hin].
-    apply in_rev in Hin. exact (H9 c' f b Hin). }
+    intros c' f Hin. apply frames_of_In in Hin. destruct Hin as [b [tx Hin]].
+    apply in_rev in Hin. exact (H9 c' f b tx Hin). }
   pose proof (on_message_INV cfg A B HAB s c cs side Hlk Hb msg o s HI0 HP) as H.
   destruct (on_message cfg c msg o s) as [[] s1|e s1].
   - apply Hfin. exact H.
